@@ -256,8 +256,10 @@ class MemTermsReader(base.TermsReader):
         return term in self._segment._terminfos
 
     def terms(self):
-        for fieldname in self._invindex:
-            for btext in self._invindex[fieldname]:
+        # Terms must come out in order, like terms_from() (readers merge the
+        # term lists of several segments)
+        for fieldname in sorted(self._invindex):
+            for btext in sorted(self._invindex[fieldname]):
                 yield (fieldname, btext)
 
     def terms_from(self, fieldname, prefix):
